@@ -160,12 +160,22 @@ def memo_discipline(ctx, cr):
         ("<rules::eval_context::BlockScope as rules::EvalContext>::resolve_variable", "resolved_variables", "insert"),
         ("<rules::eval_context::RootScope as rules::EvalContext>::rule_status", "rules_status", "insert"),
     }
-    if len(writers) < 4:
-        ctx.lost(rule, rule + ":writers-floor", "only %d memo write sites found (floor 4)" % len(writers))
+    kinds = set((fld, op) for (k, fld, op) in writers)
+    if len(kinds) < 3:
+        ctx.lost(rule, rule + ":writers-floor", "only %d kinds of memo writes found (floor 3: variable insert, rule-status insert, capture-key entry)" % len(kinds))
+
+    def helper_of_allowed(w):
+        """a private helper that does the plain insert for the allowed writers and for nobody else"""
+        k, fld, op = w
+        fn = cr.fns.get(k)
+        if fn is None or not ai.is_private_fn(fn):
+            return False
+        callers = set(kk.split("::{closure")[0] for kk, f2 in cr.fns.items() if not f2.get("file", "").endswith("_tests.rs") and any(t["fn"].get("key") == k for bi, t in M.iter_calls(f2)))
+        return bool(callers) and all((c, fld, op) in allowed for c in callers)
     for w in sorted(writers):
         k, fld, op = w
         key = "%s:write:%s:%s:%s" % (rule, k, fld, op)
-        if w in allowed:
+        if w in allowed or helper_of_allowed(w):
             ctx.ob(rule, key, True, "plain insert of the completed result under the requested name (decided above)", fn=cr.fns[k])
         else:
             why = idempotent_accumulate(ctx, cr, k)
